@@ -12,6 +12,7 @@ mod model;
 mod mutate;
 mod monitor;
 mod observe;
+mod plain;
 mod prng;
 mod props;
 mod run;
